@@ -191,7 +191,7 @@ def describe(m, st, progs, sched, nat, nfin, C):
 
 
 def explore_program(ck, names, constraints=None, allow_stale=False, policy=None, memory_limit=None, extra_obligations=None, known_regions=True, budget_s=None, check_lin=True,
-                    frontier_depth=None, prefixes=None):
+                    frontier_depth=None, prefixes=None, regions_fn=None):
     """names: [['get'], ['set']] ... ; constraints(progs, st) -> list of z3 assumptions"""
     E = ck.E
     st = St(1)
@@ -253,6 +253,9 @@ def explore_program(ck, names, constraints=None, allow_stale=False, policy=None,
             continue
         obs, final, sched, dl = p.out
         R = classify(progs, sched, st, obs, p.events) if known_regions else {}
+        if regions_fn is not None:
+            R = dict(R)
+            R.update(regions_fn(progs, sched, st, obs, p.events))
 
         def on_w(m, where, obs=obs, final=final, sched=sched):
             try:
@@ -269,7 +272,11 @@ def explore_program(ck, names, constraints=None, allow_stale=False, policy=None,
                 desc += f" (step labels differ natively: {out['schedule_mismatch'][:1]})"
             if out.get('hung'):
                 return None, desc + f" | native: client(s) {out['hung']} never returned", sc
-            if out['stuck'] or out['steps_done'] != out['steps_planned']:
+            # a thread that finishes before all of its planned steps were seen (trailing steps without a native yield point, e.g.
+            # code added by a change) is not fatal: what counts is that nobody got stuck and that the native outcomes are the predicted ones
+            if out['steps_done'] != out['steps_planned'] and not out['stuck']:
+                desc += f" (native run made {out['steps_done']} of the {out['steps_planned']} planned steps at yield points)"
+            if out['stuck']:
                 return None, desc + f" | native threads did not follow the schedule: {out['schedule_mismatch'][:2]} stuck={out['stuck']} steps {out['steps_done']}/{out['steps_planned']}", sc
             diffs = compare(pred, pfin, nat, nfin, progs)
             if diffs:
